@@ -13,3 +13,191 @@ Proof.
   unfold GMr.save_names, bufs_name, idxs_name, file_suffix.
   rewrite !app_assoc_s. reflexivity.
 Qed.
+
+(* ------------------------------------------------------------------------------------------
+   The glob patterns of the generated code (purge_globs, purge_names, cleanup_globs,
+   prev_bufs_glob, prev_idxs_glob) select exactly the names the workflow model selects
+   (is_purged, is_round_file, is_bufs_of, is_idxs_of).  The model tests prefix && suffix only;
+   [glob_match] additionally checks that prefix and suffix do not overlap.  For these patterns
+   the check is implied: the last character of the prefix ('-' or 's') does not occur in the
+   suffix (".npy" / ".pkl"), so a suffix match can never reach back into the prefix.
+   ------------------------------------------------------------------------------------------ *)
+From BB Require Import Proofs.MrStrings.
+From Coq Require Import Ascii Bool Lia List.
+Import ListNotations.
+
+(* T0 *)
+Lemma has_suffix_str_suffix : forall a b, has_suffix a b = str_suffix a b.
+Proof.
+  intros a b. induction b as [|c b IH]; cbn [has_suffix str_suffix]; [reflexivity|].
+  now rewrite IH.
+Qed.
+
+Lemma str_suffix_cons s c t :
+  str_suffix s (String c t) = true -> s = String c t \/ str_suffix s t = true.
+Proof.
+  cbn [str_suffix]. destruct (String.eqb_spec s (String c t)); auto.
+Qed.
+
+Lemma str_suffix_iff s t : str_suffix s t = true <-> exists u, t = (u ++ s)%string.
+Proof.
+  split.
+  - induction t as [|c t IH].
+    + cbn [str_suffix]. destruct (String.eqb_spec s ""%string) as [->|]; [|discriminate].
+      intros _. exists ""%string. reflexivity.
+    + intros H. apply str_suffix_cons in H. destruct H as [->|H].
+      * exists ""%string. reflexivity.
+      * destruct (IH H) as (u & ->). exists (String c u). reflexivity.
+  - intros (u & ->). rewrite <- has_suffix_str_suffix. apply has_suffix_app.
+Qed.
+
+Lemma str_suffix_len s t : str_suffix s t = true -> (String.length s <= String.length t)%nat.
+Proof.
+  intros H. apply str_suffix_iff in H. destruct H as (u & ->). rewrite slen_app. lia.
+Qed.
+
+Fixpoint has_char (c : ascii) (s : string) : bool :=
+  match s with
+  | EmptyString => false
+  | String d tl => if Ascii.eqb d c then true else has_char c tl
+  end.
+
+Lemma has_char_app c a b : has_char c (a ++ b)%string = (has_char c a || has_char c b)%bool.
+Proof.
+  induction a as [|d a IH]; cbn [append has_char]; [reflexivity|].
+  destruct (Ascii.eqb d c); [reflexivity|exact IH].
+Qed.
+
+Lemma has_char_mid c p v : has_char c (p ++ String c v)%string = true.
+Proof.
+  rewrite has_char_app. cbn [has_char]. rewrite Ascii.eqb_refl. apply orb_true_r.
+Qed.
+
+(* a suffix that does not contain [c] cannot start before an occurrence of [c] *)
+Lemma str_suffix_past_char s c v : has_char c s = false ->
+  forall p, str_suffix s (p ++ String c v)%string = true -> str_suffix s v = true.
+Proof.
+  intros Hc p. induction p as [|d p IH]; cbn [append]; intros H;
+    apply str_suffix_cons in H; destruct H as [->|H]; auto.
+  - cbn [has_char] in Hc. rewrite Ascii.eqb_refl in Hc. discriminate.
+  - change (String d (p ++ String c v))%string with (String d p ++ String c v)%string in Hc.
+    rewrite has_char_mid in Hc. discriminate.
+Qed.
+
+(* the length check of [glob_match] is implied when the last character of the prefix does
+   not occur in the suffix *)
+Lemma glob_len_implied p c s n : has_char c s = false ->
+  String.prefix (p ++ String c "")%string n = true -> str_suffix s n = true ->
+  (String.length (p ++ String c "")%string + String.length s <=? String.length n)%nat = true.
+Proof.
+  intros Hc Hp Hs. apply prefix_iff in Hp. destruct Hp as (v & ->).
+  rewrite sapp_assoc in Hs. cbn [append] in Hs.
+  apply (str_suffix_past_char s c v Hc) in Hs. apply str_suffix_len in Hs.
+  apply Nat.leb_le. rewrite !slen_app. cbn [String.length] in *. lia.
+Qed.
+
+Lemma andb_implied (a b c : bool) : (a = true -> b = true -> c = true) ->
+  (a && b)%bool = (a && b && c)%bool.
+Proof. destruct a, b, c; cbn; intros H; auto. symmetry. auto. Qed.
+
+Lemma glob_round_npy n :
+  glob_match "round-*.npy" n = (String.prefix "round-" n && str_suffix ".npy" n)%bool.
+Proof.
+  unfold glob_match.
+  change (split_star "round-*.npy") with (Some ("round-"%string, ".npy"%string)).
+  symmetry. apply andb_implied.
+  apply (glob_len_implied "round"%string "-"%char ".npy"%string n). reflexivity.
+Qed.
+
+Lemma glob_round_pkl n :
+  glob_match "round-*.pkl" n = (String.prefix "round-" n && str_suffix ".pkl" n)%bool.
+Proof.
+  unfold glob_match.
+  change (split_star "round-*.pkl") with (Some ("round-"%string, ".pkl"%string)).
+  symmetry. apply andb_implied.
+  apply (glob_len_implied "round"%string "-"%char ".pkl"%string n). reflexivity.
+Qed.
+
+Lemma glob_pkl_tmp n : glob_match "*.pkl.tmp" n = str_suffix ".pkl.tmp" n.
+Proof.
+  unfold glob_match.
+  change (split_star "*.pkl.tmp") with (Some (""%string, ".pkl.tmp"%string)).
+  cbn [String.prefix andb]. destruct n; cbn [String.prefix andb].
+  - reflexivity.
+  - destruct (str_suffix ".pkl.tmp" (String a n)) eqn:E; [|reflexivity].
+    apply str_suffix_len in E. apply Nat.leb_le. exact E.
+Qed.
+
+(* T2 *)
+Lemma tie_cleanup : forall n,
+  is_round_file n = existsb (fun g => glob_match g n) GMr.cleanup_globs.
+Proof.
+  intros n. unfold is_round_file, GMr.cleanup_globs. cbn [existsb].
+  rewrite glob_round_npy, glob_round_pkl.
+  rewrite (has_suffix_str_suffix ".npy" n), (has_suffix_str_suffix ".pkl" n).
+  destruct (String.prefix "round-" n), (str_suffix ".npy" n), (str_suffix ".pkl" n); reflexivity.
+Qed.
+
+(* T1 *)
+Lemma tie_purge : forall n,
+  is_purged n = (existsb (fun g => glob_match g n) GMr.purge_globs
+                 || existsb (String.eqb n) GMr.purge_names)%bool.
+Proof.
+  intros n. unfold is_purged. rewrite tie_cleanup.
+  unfold GMr.cleanup_globs, GMr.purge_globs, GMr.purge_names. cbn [existsb].
+  rewrite glob_pkl_tmp, (has_suffix_str_suffix ".pkl.tmp" n).
+  destruct (glob_match "round-*.npy" n), (glob_match "round-*.pkl" n),
+    (str_suffix ".pkl.tmp" n), (String.eqb n "clusters.pkl"),
+    (String.eqb n "cluster-centroids-packed.pkl"), (String.eqb n "bitbirch.pkl"); reflexivity.
+Qed.
+
+(* ---- the per-round globs ---- *)
+Lemma split_star_app a b : has_char "*" a = false ->
+  split_star (a ++ b)%string =
+  match split_star b with Some (x, y) => Some ((a ++ x)%string, y) | None => None end.
+Proof.
+  induction a as [|c a IH]; cbn [append has_char split_star]; intros H.
+  - destruct (split_star b) as [[x y]|]; reflexivity.
+  - destruct (Ascii.eqb c "*"); [discriminate|]. rewrite (IH H).
+    destruct (split_star b) as [[x y]|]; reflexivity.
+Qed.
+
+Lemma digits_no_star s : digits s = true -> has_char "*" s = false.
+Proof.
+  induction s as [|c s IH]; cbn [digits has_char]; [reflexivity|]. intros H.
+  apply andb_prop in H. destruct H as [Hc Hs].
+  destruct (Ascii.eqb_spec c "*") as [->|_]; [discriminate Hc|auto].
+Qed.
+
+Lemma round_prefix_no_star r : 0 <= r -> has_char "*" ("round-" ++ str_of_Z r)%string = false.
+Proof.
+  intros H. rewrite has_char_app, (digits_no_star _ (str_of_Z_digits r H)). reflexivity.
+Qed.
+
+Lemma tie_prev_glob kind ext c (r : Z) n :
+  0 <= r -> has_char "*" (kind ++ String c "") = false -> has_char c ext = false ->
+  (String.prefix ("round-" ++ str_of_Z r ++ kind ++ String c "") n && has_suffix ext n)%bool =
+  glob_match (("round-" ++ str_of_Z (r + 1 - 1)) ++ (kind ++ String c "") ++ String "*" ext)%string n.
+Proof.
+  intros Hr Hk Hc. replace (r + 1 - 1) with r by lia.
+  unfold glob_match. rewrite split_star_app by (apply round_prefix_no_star, Hr).
+  rewrite split_star_app by exact Hk.
+  cbn [split_star]. change (Ascii.eqb "*" "*") with true. cbv iota.
+  rewrite has_suffix_str_suffix, sapp_nil_r, <- !sapp_assoc.
+  apply andb_implied. apply glob_len_implied. exact Hc.
+Qed.
+
+(* T3 *)
+Lemma tie_prev_bufs : forall r n, 0 <= r ->
+  is_bufs_of r n = glob_match (GMr.prev_bufs_glob (r + 1)) n.
+Proof.
+  intros r n Hr. unfold is_bufs_of, GMr.prev_bufs_glob.
+  apply (tie_prev_glob "-buf" ".npy" "s" r n Hr); reflexivity.
+Qed.
+
+Lemma tie_prev_idxs : forall r n, 0 <= r ->
+  is_idxs_of r n = glob_match (GMr.prev_idxs_glob (r + 1)) n.
+Proof.
+  intros r n Hr. unfold is_idxs_of, GMr.prev_idxs_glob.
+  apply (tie_prev_glob "-idx" ".pkl" "s" r n Hr); reflexivity.
+Qed.
